@@ -821,6 +821,8 @@ class Interp:
                 return fields[name]
             cls = obj.cls
             if isinstance(cls, ExtClass):
+                if name == "__class__":
+                    return cls
                 m = cls.methods.get(name)
                 if m is None and getattr(cls, "dynamic", None) is not None:
                     m = cls.dynamic(name)
